@@ -229,7 +229,14 @@ impl http_datagram_codec::Decoder for Decoder {
         &mut self,
         mut data: Bytes,
     ) -> http_datagram_codec::DecodeResult<Self::Datagram> {
-        while !data.is_empty() {
+        // zero-length fields (empty app name, empty payload, nothing left to drop)
+        // are completed without waiting for further input
+        while !data.is_empty()
+            || matches!(
+                self.state,
+                RecvState::AppName(0) | RecvState::Payload(0) | RecvState::Dropping(0)
+            )
+        {
             match self.decode_chunk_once(data) {
                 (Some(d), tail) => return http_datagram_codec::DecodeResult::Complete(d, tail),
                 (None, tail) => data = tail,
